@@ -23,7 +23,7 @@ def build(progs, root):
     jobs = []
     for i, p in enumerate(progs):
         entry = "- method_list: [\"%s\"]\n" % (p["start"] or "%unit_init")
-        jobs.append(dict(cmd="run", lang="python", files=p["files"], dir=os.path.join(root, "r%04d" % i), settings=dict(SETTINGS, **{"entry.yaml": entry}),
+        jobs.append(dict(cmd="run", lang=p.get("lang", "python"), files=p["files"], dir=os.path.join(root, "r%04d" % i), settings=dict(SETTINGS, **{"entry.yaml": entry}),
                          flags=["--nomock"], export=["gir", "modules", "call_paths_p3"], pre_hook="schedtrace", post_hook="schedtrace", timeout=600, _p=p))
     return jobs
 
